@@ -9,6 +9,28 @@ import common, kernel, engine, imports as I
 LEVEL = "proof"
 
 
+def kf_witness(ctx):
+    """known finding C16-imported-not-revalidated: a native checkpoint depends on an imported action that appends objects"""
+    import os
+    T = {"id": 0, "name": "T", "attributes": [{"name": "x", "type": "STRING"}, {"name": "kids", "type": "EDGE_COLLECTION", "object_type": "object_type:{T}"}]}
+    act = lambda i, **kw: dict({"id": i, "name": "a%d" % i, "description": "d", "party": "party:0", "object_promise": "object_promise:%d" % i,
+                                "operation": {"include": ["x"]}}, **kw)
+    imported = {"standard": "s", "terms": [], "parties": [{"id": 0, "name": "P"}], "object_types": [T], "pipelines": [],
+                "object_promises": [{"id": i, "name": "p%d" % i, "object_type": "object_type:{T}"} for i in range(2)],
+                "actions": [act(0), act(1, depends_on="checkpoint:0", operation={"include": ["x"], "appends_objects_to": "object_promise:0.kids"})],
+                "checkpoints": [{"id": 0, "alias": "c0", "description": "d", "dependencies": [
+                    {"compare": {"left": {"ref": "action:0.object_promise.x"}, "operator": "EQUALS", "right": {"value": "go"}}}]}]}
+    os.makedirs(os.path.join(ctx.repo_copy, "schemas", "gen"), exist_ok=True)
+    json.dump(imported, open(os.path.join(ctx.repo_copy, "schemas", "gen", "kfappender.json"), "w"))
+    native = {"standard": "s", "terms": [], "parties": [{"id": 0, "name": "P"}], "object_types": [T], "pipelines": [],
+              "object_promises": [{"id": 0, "name": "p0", "object_type": "object_type:{T}"}],
+              "imports": [{"file_name": "gen/kfappender"}],
+              "actions": [act(0, depends_on="checkpoint:0")],
+              "checkpoints": [{"id": 0, "alias": "c0", "description": "d", "dependencies": [
+                  {"compare": {"left": {"ref": "schema:{gen/kfappender}.action:1.object_promise.x"}, "operator": "EQUALS", "right": {"value": "done"}}}]}]}
+    return imported, native
+
+
 def run(ctx):
     ok, thms, log = kernel.proof_step(ctx, regen=("tables",))
     rng = random.Random(ctx.seed)
@@ -31,7 +53,15 @@ def run(ctx):
         it.scenario = {"native": it.scenario["native"],
                        "imports": [{k: v for k, v in imp.items() if k != "builder"} for imp in it.scenario["imports"]]}
     engine.report(ctx, items, "T3 correspondence: whole validator with generated import files vs Coq model (Model/Imports.v)")
-    # shipped import fixtures stay accepted
+    # known finding: replay its witness
+    imported, native = kf_witness(ctx)
+    import impl
+    pool = impl.Pool(ctx, 2)
+    r_imp, r_nat = pool.validate_many([imported, native])
+    pool.close()
+    if r_imp["outcome"] == "accept" and r_nat["outcome"] == "accept":
+        ctx.known_finding("a native checkpoint may depend on an imported action that appends objects (the 'no checkpoint depends on an appending action' rule is only enforced inside the imported schema); witness: checks/c16.py kf_witness")
+    ctx.notes.append("known-finding witness: imported alone %s, importing %s" % (r_imp["outcome"], r_nat["outcome"]))
     ctx.coverage.update({
         "rule": "importing scenarios: 1-2 generated importable schemas (some with thread groups), native actions depending on imported actions through schema-qualified references (both spellings), 0-2 connections per import onto imported actions with / without a checkpoint and onto imported checkpoints, each rendered twice; single faults: imported schema invalid (any mutator), file unreadable, connection target missing / native, added dependency missing / imported / not a checkpoint, cycle closed through a connection, checkpoint with threaded context added through a connection; distinct by scenario",
         "samples": [{"kind": it.kind, "mutator": it.mutator, "implementation": it.res["outcome"], "model_accepts": it.model_accepts,
